@@ -71,9 +71,9 @@ CHECKS = {
          "NFT groups are not generated; staking transactions are built in a third of the cases (stake requirement 0, stake period 1-3). Exact set equality is only asserted on reorg-free histories, as the statement says.",
          "DESIGN.md §3 C19"),
  "C18": ("exploration",
-         "exhaustive enumeration of all 2^n touch patterns (n <= 8 quick, <= 11 thorough) plus property-based random blocks/key lists; projection and commitment-recomputation oracles, in memory and across the wire format",
+         "exhaustive enumeration of all 2^n touch patterns (n <= 8 quick, <= 11 thorough) plus property-based random blocks/key lists; projection and commitment-recomputation oracles, in memory and across the wire format; plus generated request / key-list-update sequences against the real HTTP route of saito-rust",
          "For every pattern of which transactions of a block touch the client's key list, the lite block must keep id/hash/signature/header, contain every touching transaction unchanged and in order, account for every omitted one, allow the header's merkle root to be recomputed from its transactions (a panic of that recomputation is a violation), and keep all of that after serialisation. Placeholder merging depends on the position pattern, which is enumerated completely for small n.",
-         "Open known finding F27: whenever two adjacent omitted transactions are merged the commitment is not recomputable (keyed by merged/unmerged so that a regression of the unmerged case is still reported). The HTTP route in saito-rust that serves lite blocks is not driven; the same Block::generate_lite_block + serialize_for_net calls are.",
+         "Open known finding F27: whenever two adjacent omitted transactions are merged the commitment is not recomputable (keyed by merged/unmerged so that a regression of the unmerged case is still reported). The HTTP route in saito-rust that serves lite blocks is driven over loopback HTTP by the separate binary /verif/route (real warp server, fresh per generated sequence of requests and key-list updates; differential against the direct projection); if the listener cannot be reached that part is recorded as not run.",
          "DESIGN.md §3 C18"),
  "C16": ("exploration",
          "stateful model-based testing through the routing layer with an I/O-boundary monitor: exhaustive operation sequences to depth 4 (quick) / 5 (thorough) over a small universe plus proptest-generated sequences to length 60, each run to quiescence; random sequences also complete fetches in any order and contain peer-less parent requests from the consensus thread",
